@@ -95,6 +95,9 @@ def refs_distinct(ex, st, r1, r2):
     c1, c2 = z3.is_int_value(r1), z3.is_int_value(r2)
     if c1 and c2:
         return r1.as_long() != r2.as_long()
+    for grp in getattr(ex, "distinct_groups", ()):
+        if r1.get_id() in grp and r2.get_id() in grp:
+            return True
     if c1 or c2:
         c, o = (r1, r2) if c1 else (r2, r1)
         b = ref_upper_bound(o)
@@ -103,26 +106,40 @@ def refs_distinct(ex, st, r1, r2):
     return ex.quick(st, r1 != r2) if st is not None else False
 
 
-def heap_select(ex, st, arr, r):
-    """select(arr, r) for a ref-indexed heap array, resolving store chains with distinctness knowledge."""
+def heap_select(ex, st, arr, r, memo=None):
+    """select(arr, r) for a ref-indexed heap array, resolving store chains with distinctness knowledge.
+    Memoised on the (shared) heap DAG so merged heaps stay linear."""
     r = simp(r)
-    cur = arr
-    for _ in range(400):
-        if z3.is_app(cur) and cur.decl().kind() == z3.Z3_OP_STORE:
-            idx = cur.arg(1)
+    if memo is None:
+        memo = {}
+    k = arr.get_id()
+    if k in memo:
+        return memo[k]
+    res = None
+    if z3.is_app(arr):
+        kind = arr.decl().kind()
+        if kind == z3.Z3_OP_STORE:
+            idx = arr.arg(1)
             if idx.eq(r):
-                return cur.arg(2)
-            if refs_distinct(ex, st, idx, r):
-                cur = cur.arg(0)
-                continue
-            return z3.If(idx == r, cur.arg(2), heap_select(ex, st, cur.arg(0), r))
-        if z3.is_app(cur) and cur.decl().kind() == z3.Z3_OP_ITE:
-            a, b = heap_select(ex, st, cur.arg(1), r), heap_select(ex, st, cur.arg(2), r)
-            if a.eq(b):
-                return a
-            return z3.If(cur.arg(0), a, b)
-        break
-    return z3.Select(cur, r)
+                res = arr.arg(2)
+            elif refs_distinct(ex, st, idx, r):
+                res = heap_select(ex, st, arr.arg(0), r, memo)
+            else:
+                res = z3.If(idx == r, arr.arg(2), heap_select(ex, st, arr.arg(0), r, memo))
+        elif kind == z3.Z3_OP_ITE:
+            kn = st.known(arr.arg(0)) if st is not None else None
+            if kn is True:
+                res = heap_select(ex, st, arr.arg(1), r, memo)
+            elif kn is False:
+                res = heap_select(ex, st, arr.arg(2), r, memo)
+            else:
+                a, b = heap_select(ex, st, arr.arg(1), r, memo), heap_select(ex, st, arr.arg(2), r, memo)
+                res = a if a.eq(b) else z3.If(arr.arg(0), a, b)
+    if res is None:
+        res = z3.Select(arr, r)
+    memo[k] = res
+    ex.__dict__.setdefault("_keepalive", []).append(arr)
+    return res
 
 
 def hget(ex, st, r, ks):
@@ -254,7 +271,22 @@ def norm_index(i, n):
     return z3.If(i < 0, i + n, i)
 
 
+def ref_split(ex, st, ctx, obj, fn, depth=0):
+    """Dereferencing a value that is an If-tree over different objects: handle each object on its own path
+    (so that references stay simple) and merge.  fn(state, value) -> Val."""
+    o = st.resolve(simp(obj))
+    if depth < 3 and z3.is_app(o) and o.decl().kind() == z3.Z3_OP_ITE and o.sort() == Val:
+        c = o.arg(0)
+        return ex.branch_val(st, c, lambda x: ref_split(ex, x, ctx, o.arg(1), fn, depth + 1),
+                             lambda x: ref_split(ex, x, ctx, o.arg(2), fn, depth + 1))
+    return fn(st, o)
+
+
 def get_item(ex, st, ctx, obj, k, node):
+    return ref_split(ex, st, ctx, obj, lambda x, o: _get_item(ex, x, ctx, o, k, node))
+
+
+def _get_item(ex, st, ctx, obj, k, node):
     tag = static_tag(obj)
     dk = dyn_kind(ex, st, obj)
     if dk == "str":
@@ -370,6 +402,10 @@ def _str_index(ex, st, ctx, obj, k, node):
 
 
 def set_item(ex, st, ctx, obj, k, v, node):
+    ref_split(ex, st, ctx, obj, lambda x, o: (_set_item(ex, x, ctx, o, k, v, node), VNone)[1])
+
+
+def _set_item(ex, st, ctx, obj, k, v, node):
     tag = static_tag(obj)
     dk = dyn_kind(ex, st, obj)
     if dk in ("dict", "obj"):
@@ -393,6 +429,7 @@ def set_item(ex, st, ctx, obj, k, v, node):
 
 
 def _dict_set(ex, st, ctx, obj, k, v):
+    v = ex.name_val(v)
     ks = simp(dkey2(ex, st, k))
     if z3.is_string_value(ks):
         ex.key_universe.add(ks.as_string())
@@ -618,6 +655,11 @@ def _cheap(a, b):
 
 
 def contains(ex, st, ctx, container, item, node):
+    r = ref_split(ex, st, ctx, container, lambda x, o: VBool(_contains(ex, x, ctx, o, item, node)))
+    return bval(r)
+
+
+def _contains(ex, st, ctx, container, item, node):
     tag = static_tag(container)
     kind = ref_kind(ex, container) if tag == "ref" else None
     dk = dyn_kind(ex, st, container)
